@@ -23,7 +23,8 @@ ID = "C40"
 RULE = (
     "Hypothesis draws either a SecondOrderTensor on 1..6 cells from cell-wise SPD matrices Q diag(lam) Q^T (lam in "
     "[0.1, 10], or strongly anisotropic lam = m 10^-k with ratio up to 1e6; Q from three Euler angles; constructor "
-    "forms: all six components / 2-d (kxx, kyy, kxy) / diagonal / isotropic), a rotation matrix (Euler angles, "
+    "forms: all six components / 2-d (kxx, kyy, kxy) / diagonal / isotropic / diagonal plus a proper subset of the "
+    "off-diagonal components, e.g. kyz alone), a rotation matrix (Euler angles, "
     "arbitrary or multiples of pi/2), a cell subset (unique indices, sorted or not) and an entry to mutate; or a "
     "FourthOrderTensor from mu in [0.5, 3], lmbda in [0, 3] on 1..6 cells with 0..2 extra fields whose 9x9 matrices "
     "have the major and minor symmetries. In both kinds every parameter is multiplied by a unit factor 10^e, e = 0 "
@@ -56,7 +57,7 @@ ASSUMPTIONS = [
     "extra fields of the fourth-order tensor come with 9x9 matrices that have the major and minor symmetries (as in the repository's tests); the pair index of the 9x9 layout is 3*i + j",
 ]
 REQUIRED = {
-    "second": 0.3, "fourth": 0.3, "form-full": 0.08, "form-2d": 0.05, "form-diag": 0.05, "form-iso": 0.05,
+    "second": 0.3, "fourth": 0.3, "form-full": 0.08, "form-2d": 0.05, "form-diag": 0.05, "form-iso": 0.05, "form-partial": 0.04,
     "rot-generic": 0.1, "rot-quarter-turns": 0.05, "multi-cell": 0.5, "restrict-unsorted": 0.1,
     "restrict-sorted": 0.1, "extra-fields": 0.1, "no-extra-fields": 0.1,
     "fourth-history-other-fields": 0.1, "fourth-history": 0.08, "scaled-small": 0.15, "scaled-large": 0.08, "scaled-unit": 0.15, "anisotropic": 0.05,
@@ -85,7 +86,11 @@ def _subset(draw, nc):
 @st.composite
 def _second(draw):
     nc = draw(st.integers(1, 6))
-    form = draw(st.sampled_from(["full", "full", "2d", "diag", "iso"]))
+    form = draw(st.sampled_from(["full", "full", "2d", "diag", "iso", "partial"]))
+    # form "partial": the three diagonal components plus an arbitrary proper subset of the off-diagonal ones, e.g. kyz
+    # alone (off-diagonal components that are not passed are zero by documentation; the defaults of kyy / kzz are not
+    # demanded, see DESIGN section 8, so the diagonal is always passed)
+    partial = ["kyy", "kzz"] + sorted(draw(st.sets(st.sampled_from(["kxy", "kxz", "kyz"]), min_size=1, max_size=2)))
     cells = []
     aniso = draw(st.integers(0, 2)) == 0
     for _ in range(nc):
@@ -97,7 +102,7 @@ def _second(draw):
         rot = [draw(st.integers(-2, 2)) * (math.pi / 2) for _ in range(3)]
     else:
         rot = [draw(_ang) for _ in range(3)]
-    return {"kind": "second", "form": form, "cells": cells, "rot": rot, "quarter": quarter,
+    return {"kind": "second", "form": form, "partial": partial, "cells": cells, "rot": rot, "quarter": quarter,
             "scale_exp": draw(_scale_exp), "restrict": _subset(draw, nc),
             "mut": [draw(st.integers(0, 2)), draw(st.integers(0, 2)), draw(st.integers(0, nc - 1))]}
 
@@ -235,6 +240,15 @@ def _check_second(s):
         l = [li * factor for li in l]
         k = q @ np.diag(l) @ q.T
         k = 0.5 * (k + k.T)
+        if form == "partial":
+            # diagonal as generated (or the documented default kxx), the chosen off-diagonal components small enough
+            # for diagonal dominance whatever subset is passed (the constructor rejects tensors that are not positive)
+            pg = s["partial"]
+            d = [l[0], l[1] if "kyy" in pg else l[0], l[2] if "kzz" in pg else l[0]]
+            k = np.diag(d)
+            for nm, (i, j), sg in (("kxy", (0, 1), 1.0), ("kxz", (0, 2), -1.0), ("kyz", (1, 2), 1.0)):
+                if nm in pg:
+                    k[i, j] = k[j, i] = sg * 0.3 * min(d) * (1 + 0.1 * c)
         if form == "2d":
             k[2, :] = 0.0
             k[:, 2] = 0.0
@@ -245,7 +259,7 @@ def _check_second(s):
     comp = {"kxx": K[0, 0].copy(), "kyy": K[1, 1].copy(), "kzz": K[2, 2].copy(), "kxy": K[0, 1].copy(),
             "kxz": K[0, 2].copy(), "kyz": K[1, 2].copy()}
     given = {"full": ["kxx", "kyy", "kzz", "kxy", "kxz", "kyz"], "2d": ["kxx", "kyy", "kxy"],
-             "diag": ["kxx", "kyy", "kzz"], "iso": ["kxx"]}[form]
+             "diag": ["kxx", "kyy", "kzz"], "iso": ["kxx"], "partial": ["kxx"] + list(s.get("partial", []))}[form]
     t = pp.SecondOrderTensor(**{k: comp[k] for k in given})
 
     labels = ["second", f"form-{form}", "rot-quarter-turns" if s["quarter"] else "rot-generic"] + _scale_labels(sexp)
@@ -267,8 +281,13 @@ def _check_second(s):
             i, j = pos[name]
             require_equal(v[i, j], np.zeros(nc), "second-default-offdiag", f"{name} not given but values[{i},{j}] != 0")
 
+    if form == "partial":
+        labels.append("partial-offdiag-" + "".join(n[1:] for n in given if n in ("kxy", "kxz", "kyz")) if any(
+            n in given for n in ("kxy", "kxz", "kyz")) else "partial-diag-only")
+        # the whole tensor is determined by the given components and the documented defaults
+        require_equal(v, K, "second-partial-values", f"components {given} with documented defaults")
     K0 = v.copy()
-    if form in ("2d", "iso"):
+    if form in ("2d", "iso", "partial"):
         # entries that were not passed are filled by documented defaults which this check does not demand; take
         # the reference eigenvalues of those forms from the (symmetric, verified) values before the rotation
         for c in range(nc):
